@@ -8,10 +8,25 @@ use crate::w_dgram;
 use crate::w_flow;
 use crate::w_ser;
 use crate::w_stream;
+use crate::w_taps;
 
 pub fn generate(prop: Prop, rng: &mut Rng) -> Scenario {
     match prop {
         Prop::C07 => w_defrag::generate(rng, prop),
+        Prop::C06 => match rng.below(10) {
+            0..=5 => w_taps::generate(rng, prop),
+            6..=7 => w_stream::generate(rng, prop),
+            8 => w_dgram::generate(rng, prop),
+            _ => w_defrag::generate(rng, prop),
+        },
+        Prop::C01 => match rng.below(20) {
+            0..=7 => w_taps::generate(rng, prop),
+            8..=12 => w_stream::generate(rng, prop),
+            13..=15 => w_defrag::generate(rng, prop),
+            16..=17 => w_dgram::generate(rng, prop),
+            18 => w_ser::generate(rng, prop),
+            _ => w_flow::generate(rng, prop),
+        },
         Prop::C02 | Prop::C03 => w_stream::generate(rng, prop),
         Prop::C16 => {
             if rng.chance(1, 3) {
@@ -23,7 +38,6 @@ pub fn generate(prop: Prop, rng: &mut Rng) -> Scenario {
         Prop::C08 => w_flow::generate(rng, prop),
         Prop::C09 => w_ser::generate(rng, prop),
         Prop::C10 => w_dgram::generate(rng, prop),
-        _ => w_defrag::generate(rng, prop),
     }
 }
 
@@ -34,6 +48,7 @@ pub fn execute(scn: &Scenario, ctx: &mut Ctx) {
         "flow" => w_flow::execute(scn, ctx),
         "ser" => w_ser::execute(scn, ctx),
         "dgram" => w_dgram::execute(scn, ctx),
+        "taps" => w_taps::execute(scn, ctx),
         _ => {}
     }
 }
@@ -43,6 +58,7 @@ pub fn execute(scn: &Scenario, ctx: &mut Ctx) {
 pub fn shrinkable(world: &str, kind: &str, field: &str) -> bool {
     match (world, kind, field) {
         ("defrag", "rec" | "nocopy", "data" | "rep" | "n") => true,
+        ("taps", "struct" | "trail", "bytes") | ("taps", "seg", "n") => true,
         ("stream", "rec", "data") | ("stream", "garbage" | "insert", "data") | ("stream", "seg", "n") => true,
         _ => false,
     }
@@ -63,6 +79,7 @@ pub fn cell_name(space: &str, id: u32) -> String {
         "defrag" => w_defrag::cell_name(id),
         "cut" | "rec" | "many" => w_stream::cell_name(space, id),
         "transition" => w_flow::cell_name(id),
+        "tap" => w_taps::cell_name(id),
         "dframe" | "dfrag" | "dmany" => w_dgram::cell_name(space, id),
         _ => format!("{}#{}", space, id),
     }
@@ -84,6 +101,32 @@ pub fn meta(prop: Prop) -> Meta {
             ],
         },
 
+        Prop::C06 => Meta {
+            level: "exploration",
+            rule: "one evaluation = one simulated run in one of four worlds: (taps, 60%) one structure of 16 kinds (TLS/DTLS records, TLS/DTLS handshake message, extension through the three dispatchers, SCT, SCT list, DH / ECDH / EC parameters, both digitally-signed forms), well-formed or with a single nested field changed, followed by in-flight bytes (nothing, garbage, or bytes that are valid structures themselves), delivered by a seeded segmentation schedule with the named parser applied to the buffer at every delivery event; (stream, 20%) record streams where every framed record is re-parsed on its exact extent, as buffered, and with the whole rest of the stream behind it, plus per-message containment against the sender's byte layout; (dgram, 10%) DTLS datagrams; (defrag, 10%) TlsRecordsParser histories with slice provenance (caller's record vs parser buffer via the hook); distinct = distinct abstract traces; non-trivial = at least 2 delivery events / records or a fault fired",
+            fault_kinds: &["trailing-inflight", "length-lie", "seg-dribble", "coalesce", "fragment", "empty-fragment", "nocopy-call", "reset", "multi-record-datagram", "dgram-truncate"],
+            cell_spaces: vec![("tap", Some((0..64).collect()))],
+            real: &["the 16 tapped self-delimiting parsers", "parse_tls_record_with_header", "TlsRecordsParser (provenance)", "parse_dtls_plaintext_record"],
+            stub: &["structure encoders (RFC layouts)", "byte pipe / datagram net / record layer", "slice provenance walker over all returned types", "declared-extent framers"],
+            assumptions: &[
+                "the check compares runs of the same parser on b and b++x (locality), never parsed values with sent values (that would be C04/C05/C13/C14, which are not claimed)",
+                "an empty slice has no bytes, so only non-empty slices are subject to the provenance audit; PskExchangeModes(Vec<u8>) is exempt by design",
+                "outcome stability is required from the first Ok, and for errors once the declared extent (fixed-position length field) is fully buffered",
+            ],
+        },
+        Prop::C01 => Meta {
+            level: "exploration",
+            rule: "one evaluation = one simulated run in one of six worlds with the no-unwind / per-call heap-meter / hang-watchdog invariants evaluated on EVERY call into the crate: (taps, 40%) the confused monitor applies all 83 public parse functions (with Debug and Display of every returned value) to a structure in flight at every delivery event, structures being well-formed or hit by 1..4 single-byte length/field lies; (stream, 25%) TLS byte streams incl. the hostile channel (bit flips, byte drops/insertions, length lies, garbage, oversize headers, EOF anywhere); (defrag, 15%) TlsRecordsParser histories with all record-layer faults incl. streams up to the 10 MiB bound and corrupted payloads; (dgram, 10%) DTLS datagrams with truncation and bit flips; (ser, 5%) serializer under sink faults; (flow, 5%) state machine; built with debug-assertions and overflow-checks; distinct = distinct abstract traces; non-trivial = >= 2 events or a fault fired",
+            fault_kinds: &["length-lie", "trailing-inflight", "seg-dribble", "bitflip", "byte-drop", "byte-insert", "garbage-inject", "eof", "empty-fragment", "foreign-type-interleave", "oversize-stream", "reset", "nocopy-call", "dgram-truncate", "write-short"],
+            cell_spaces: vec![],
+            real: &["all 83 public parse_* functions (allparsers.rs)", "TlsRecordsParser", "tls_state_transition", "gen_* serializers", "Debug / Display of every returned value"],
+            stub: &["all stubs of the other worlds", "counting GlobalAlloc (per-thread, per-call peak)", "watchdog thread (real clock used only to declare a hang)"],
+            assumptions: &[
+                "heap bound per call: peak additional live heap <= A*len + 4 KiB with A = 4 x the largest returned element type (computed from the real types at run time), plus 3 x MAX_RECORD_DATA for TlsRecordsParser calls",
+                "inputs are corruptions of well-formed traffic and injected garbage up to ~70 000 bytes (streams up to 11 MiB in the oversize scenario); this samples, it does not enumerate all byte strings",
+                "allocation failure is not injected (it aborts rather than unwinds and the crate has no fallible-allocation path)",
+            ],
+        },
         Prop::C02 => Meta {
             level: "fault_enumeration",
             rule: "one evaluation = one simulated TLS byte stream (1..10 records, all content types, boundary-biased declared lengths incl. the 16640/16641 cap, length lies, trailing garbage, hostile bit/byte faults) delivered to the monitor by a seeded segmentation schedule; at EVERY delivery event the real parse_tls_raw_record / parse_tls_encrypted / parse_tls_plaintext / parse_tls_record_header are applied to the receive buffer and compared with the 5-byte reference framer, and a Needed-driven reader must emit every complete record; under the seg-dribble and boundary-dribble schedules every cut point 0..=5+len of every record in the stream is enumerated; distinct = distinct 64-bit fingerprints of the abstract trace (per framing attempt: content type x outcome classes x buffer size class); non-trivial = at least 2 records or 2 delivery events or a fault fired",
